@@ -102,6 +102,12 @@ _CALLS = {'len': len, 'min': min, 'max': max, 'sum': sum, 'int': int, 'float': f
           'next': lambda it, *d: next(iter(it), *d), 'set': set, 'str': str, 'print': lambda *a, **k: None}
 
 
+def _pow(x, y):
+    if isinstance(y, (int, float)) and abs(y) <= 1024:
+        return x ** y
+    raise ModelError('minieval: power with a large exponent')
+
+
 def stub(fn):
     fn._kv_stub = True
     return fn
@@ -132,6 +138,8 @@ def ev(e, env):
             return getattr(b, e.attr)       # a namedtuple of the rule
         if (getattr(b, '_kv_token', False) or (isinstance(b, str) and type(b).__name__ == 'Token')) and e.attr in ('value', 'type'):
             return getattr(b, e.attr)       # a lexer token (lark's Token is a str with .value / .type) or its stand-in
+        if getattr(type(b), '_kv_array', False) and e.attr in type(b)._kv_attrs:
+            return getattr(b, e.attr)       # shape / ndim of an array stand-in
         if b is None or isinstance(b, (NS, int, float, str, tuple, list)):
             raise AttributeError(f'{type(b).__name__!r} object has no attribute {e.attr!r}')    # what the code itself would raise
         raise ModelError(f'minieval: attribute {ast.unparse(e)}')
@@ -143,7 +151,7 @@ def ev(e, env):
             raise TypeError("'NoneType' object is not subscriptable")
         if type(b).__name__ == 'Match':
             return b[ev(e.slice, env)]
-        if isinstance(b, IntArr):
+        if isinstance(b, IntArr) or getattr(type(b), '_kv_array', False):
             return b[ev(e.slice, env)]
         if not isinstance(b, (list, tuple, dict, str)):
             raise ModelError(f'minieval: subscript on {type(b).__name__}: {ast.unparse(e)}')
@@ -169,7 +177,7 @@ def ev(e, env):
         a, b = ev(e.left, env), ev(e.right, env)
         ops = {ast.Add: lambda x, y: x + y, ast.Sub: lambda x, y: x - y, ast.Mult: lambda x, y: x * y, ast.FloorDiv: lambda x, y: x // y,
                ast.Mod: lambda x, y: x % y, ast.BitAnd: lambda x, y: x & y, ast.BitOr: lambda x, y: x | y, ast.BitXor: lambda x, y: x ^ y,
-               ast.LShift: lambda x, y: x << y, ast.RShift: lambda x, y: x >> y}
+               ast.LShift: lambda x, y: x << y, ast.RShift: lambda x, y: x >> y, ast.Pow: _pow, ast.Div: lambda x, y: x / y}
         if type(e.op) not in ops:
             raise ModelError(f'minieval: operator {type(e.op).__name__}')
         return ops[type(e.op)](a, b)
@@ -179,6 +187,10 @@ def ev(e, env):
             r = ev(c, env)
             ok = {ast.Eq: lambda: l == r, ast.NotEq: lambda: l != r, ast.Lt: lambda: l < r, ast.LtE: lambda: l <= r, ast.Gt: lambda: l > r,
                   ast.GtE: lambda: l >= r, ast.Is: lambda: l is r, ast.IsNot: lambda: l is not r, ast.In: lambda: l in r, ast.NotIn: lambda: l not in r}[type(op)]()
+            if getattr(type(ok), '_kv_array', False):
+                if len(e.ops) != 1:
+                    raise ModelError('minieval: chained comparison of arrays')
+                return ok           # elementwise comparison of an array stand-in
             if not ok:
                 return False
             l = r
@@ -321,7 +333,7 @@ def ev(e, env):
         return IntArr([0] * n)
     if isinstance(e, ast.Call) and isinstance(e.func, ast.Attribute) and e.func.attr in ('max', 'min') and not e.args and not e.keywords:
         b = ev(e.func.value, env)
-        if isinstance(b, IntArr):
+        if isinstance(b, IntArr) or getattr(type(b), '_kv_array', False):
             return getattr(b, e.func.attr)()
         raise ModelError(f'minieval: .{e.func.attr}() on {type(b).__name__}')
     if isinstance(e, ast.Call) and isinstance(e.func, ast.Attribute) and e.func.attr in ('popleft', 'pop') and not e.keywords:
@@ -335,6 +347,12 @@ def ev(e, env):
             return getattr(b, e.func.attr)(*_args(e.args, env))      # a method of a container stand-in of the rule
     if isinstance(e, ast.Call) and isinstance(e.func, ast.Name) and e.func.id in _CALLS and not e.keywords:
         return _CALLS[e.func.id](*_args(e.args, env))
+    if isinstance(e, ast.Call) and isinstance(e.func, ast.Attribute) and all(k.arg for k in e.keywords):
+        b = ev(e.func.value, env)
+        if getattr(type(b), '_kv_array', False):
+            if e.func.attr in type(b)._kv_methods:
+                return getattr(b, e.func.attr)(*_args(e.args, env), **{k.arg: ev(k.value, env) for k in e.keywords})    # a method of an array stand-in
+            raise ModelError(f'minieval: array method .{e.func.attr}()')
     if isinstance(e, ast.Call) and isinstance(e.func, ast.Attribute) and isinstance(e.func.value, ast.Name) and e.func.value.id == 're' \
             and e.func.attr in ('sub', 'split', 'match', 'fullmatch', 'search', 'findall', 'compile') and not e.keywords:
         import re as _re
@@ -360,6 +378,10 @@ def ev(e, env):
             return getattr(b, e.func.attr)(*_args(e.args, env), **{k.arg: ev(k.value, env) for k in e.keywords})
     if isinstance(e, ast.Call) and isinstance(e.func, ast.Name) and getattr(env.get(e.func.id), '_kv_stub', False) and all(k.arg for k in e.keywords):
         return env[e.func.id](*_args(e.args, env), **{k.arg: ev(k.value, env) for k in e.keywords})     # a stand-in constructor / function of the rule
+    if isinstance(e, ast.Call) and isinstance(e.func, ast.Subscript) and all(k.arg for k in e.keywords):
+        f = ev(e.func, env)         # kernel[grid, block](...): the rule supplies the launcher
+        if getattr(f, '_kv_stub', False):
+            return f(*_args(e.args, env), **{k.arg: ev(k.value, env) for k in e.keywords})
     raise ModelError(f'minieval: expression outside the subset: {ast.unparse(e)[:80]}')
 
 
@@ -388,7 +410,7 @@ def bind(target, value, env):
         base = ev(target.value, env)
         if isinstance(base, Rec):
             base.put(ev(target.slice, env), value)
-        elif isinstance(base, (list, dict, IntArr)):
+        elif isinstance(base, (list, dict, IntArr)) or getattr(type(base), '_kv_array', False):
             base[ev(target.slice, env)] = value
         else:
             raise ModelError(f'minieval: item store into {type(base).__name__}')
@@ -483,6 +505,9 @@ def run(stmts, env):
                 or isinstance(env.get(st.value.func.id), LocalFn)):
             ev(st.value, env)       # a constructor / function of the rule, or a local helper, called for its effect on stand-in objects
             continue
+        if isinstance(st, ast.Expr) and isinstance(st.value, ast.Call) and isinstance(st.value.func, ast.Subscript):
+            ev(st.value, env)      # kernel[grid, block](...) with a launcher of the rule (anything else raises ModelError)
+            continue
         if isinstance(st, ast.Expr) and isinstance(st.value, ast.Yield):
             if '__yield__' not in env:
                 raise ModelError('minieval: yield outside an evaluated generator function')
@@ -512,7 +537,7 @@ def run(stmts, env):
                 tmp['__cur__'] = base[freeze(k)]
                 base.put(k, ev(ast.BinOp(left=ast.Name(id='__cur__', ctx=ast.Load()), op=st.op, right=st.value), tmp))
                 continue
-            if not isinstance(base, (list, dict, IntArr)):
+            if not isinstance(base, (list, dict, IntArr)) and not getattr(type(base), '_kv_array', False):
                 raise ModelError('minieval: augmented item store')
             k = ev(st.target.slice, env)
             cur = base[k]
@@ -557,7 +582,7 @@ def run(stmts, env):
             if isinstance(base, Rec):
                 base.put(ev(st.targets[0].slice, env), ev(st.value, env))
                 continue
-            if not isinstance(base, (list, dict, IntArr)):
+            if not isinstance(base, (list, dict, IntArr)) and not getattr(type(base), '_kv_array', False):
                 raise ModelError('minieval: item store')
             base[ev(st.targets[0].slice, env)] = ev(st.value, env)
             continue
